@@ -305,7 +305,60 @@ fn cfg_product() -> Vec<Cfg> {
     v
 }
 
+/// The families of `cases_parts`.
+pub const A1: u32 = 1;
+pub const A2: u32 = 2;
+pub const A3: u32 = 4;
+pub const POSITIONS: u32 = 8;
+pub const RANDOM: u32 = 16;
+pub const FIXTURES: u32 = 32;
+pub const CLOSE: u32 = 64;
+pub const ALL: u32 = 127;
+
+/// Everything (the standalone check).
 pub fn cases(o: &mut Outcome, rng: &mut Rng, thorough: bool) {
+    cases_parts(o, rng, thorough, ALL);
+}
+
+/// For C03 (comments are never dropped): the longer gaps, the random and the fixture gaps with the
+/// content / comments / only oracles, and `close_block`; the repaired defect's probe.
+pub fn cases_c03(o: &mut Outcome, rng: &mut Rng, thorough: bool) {
+    cases_parts(o, rng, thorough, A2 | RANDOM | FIXTURES | CLOSE);
+    probes_fixed(o);
+}
+
+/// For C08 (blank-line discipline): the short gaps under the whole product of blank-line bounds, tab
+/// settings and style editions, with the clamp oracle; the repaired defect's probe.
+pub fn cases_c08(o: &mut Outcome, rng: &mut Rng, thorough: bool) {
+    cases_parts(o, rng, thorough, A1);
+    probes_fixed(o);
+}
+
+/// For C16 (no abnormal termination): the corners of the configuration, every position pair, random
+/// gaps, `close_block` (a panic of the code that the model does not predict is a disagreement).
+pub fn cases_c16(o: &mut Outcome, rng: &mut Rng, thorough: bool) {
+    cases_parts(o, rng, thorough, A3 | POSITIONS | RANDOM | CLOSE);
+}
+
+/// For C02 (idempotence): the second-run check rides on A2 / RANDOM / FIXTURES; the four shapes on which
+/// the writer does not reproduce its own output are probes (known findings).
+pub fn cases_c02(o: &mut Outcome, rng: &mut Rng, thorough: bool) {
+    cases_parts(o, rng, thorough, A2 | FIXTURES);
+    probes_idem(o);
+}
+
+pub fn cases_parts(o: &mut Outcome, rng: &mut Rng, thorough: bool, parts: u32) {
+    // panics of the real code are answers here: keep them off stderr
+    let prev = std::panic::take_hook();
+    std::panic::set_hook(Box::new(|_| {}));
+    cases_inner(o, rng, thorough, parts);
+    if parts & CLOSE != 0 {
+        close_cases(o, rng, thorough);
+    }
+    std::panic::set_hook(prev);
+}
+
+fn cases_inner(o: &mut Outcome, rng: &mut Rng, thorough: bool, parts: u32) {
     let t0 = std::time::Instant::now();
     let mut k = Sink { o, desc: "exhaustive", oracles: true, consistent: true, idem: false, pending: vec![] };
 
@@ -313,7 +366,7 @@ pub fn cases(o: &mut Outcome, rng: &mut Rng, thorough: bool) {
     let n_full = if thorough { 3 } else { 2 };
     let cfgs = cfg_product();
     let configs: Vec<Config> = cfgs.iter().map(|c| mk_config(*c)).collect();
-    let gaps_full = gaps_upto(n_full, PIECES);
+    let gaps_full = if parts & A1 != 0 { gaps_upto(n_full, PIECES) } else { vec![] };
     let few: Vec<usize> = cfgs.iter().enumerate().filter(|(_, c)| (c.lower, c.upper) == (0, 1) || (c.lower, c.upper, c.hard_tabs) == (2, 0, false)).map(|(i, _)| i).collect();
     for (ci, cfg) in cfgs.iter().enumerate() {
         for g in &gaps_full {
@@ -340,7 +393,7 @@ pub fn cases(o: &mut Outcome, rng: &mut Rng, thorough: bool) {
     let n_base = if thorough { 5 } else { 4 };
     let bases = [BASE, Cfg { hard_tabs: true, upper: 2, lower: 1, ..BASE }, Cfg { ed2024: true, upper: 0, ..BASE }];
     let base_configs: Vec<Config> = bases.iter().map(|c| mk_config(*c)).collect();
-    let gaps_base = gaps_upto(n_base, PIECES);
+    let gaps_base = if parts & A2 != 0 { gaps_upto(n_base, PIECES) } else { vec![] };
     for (gi, g) in gaps_base.iter().enumerate() {
         // every gap under one configuration and two contexts (rotating), entry point rotating too
         let ci = gi % bases.len();
@@ -366,7 +419,7 @@ pub fn cases(o: &mut Outcome, rng: &mut Rng, thorough: bool) {
         Cfg { hard_tabs: true, tab_spaces: 1, ..BASE },
         Cfg { tab_spaces: 8, comment_width: 5, ..BASE },
     ];
-    let gaps_corner = gaps_upto(2, PIECES);
+    let gaps_corner = if parts & A3 != 0 { gaps_upto(2, PIECES) } else { vec![] };
     for cfg in &corner {
         let config = mk_config(*cfg);
         for g in &gaps_corner {
@@ -387,7 +440,8 @@ pub fn cases(o: &mut Outcome, rng: &mut Rng, thorough: bool) {
     k.oracles = false;
     k.consistent = false;
     let base_config = mk_config(BASE);
-    for text in [";", " ; ", "a;b", "\u{e9};", "/* \u{e9} */\u{2028}x", "\n\n", " \u{3000}// c\n;", "x // c\n\u{a0}y"] {
+    let position_texts: &[&str] = if parts & POSITIONS != 0 { &[";", " ; ", "a;b", "\u{e9};", "/* \u{e9} */\u{2028}x", "\n\n", " \u{3000}// c\n;", "x // c\n\u{a0}y"] } else { &[] };
+    for text in position_texts.iter().copied() {
         for lp in 0..=text.len() + 1 {
             for end in 0..=text.len() + 1 {
                 for entry in 0..3u8 {
@@ -406,7 +460,7 @@ pub fn cases(o: &mut Outcome, rng: &mut Rng, thorough: bool) {
     k.idem = true;
     let all_pieces: Vec<&str> = PIECES.iter().chain(MORE.iter()).copied().collect();
     let blank_pieces: Vec<&str> = all_pieces.iter().copied().filter(|p| p.trim().is_empty() || p.starts_with("//") || p.starts_with("/*")).collect();
-    let n_random = if thorough { 60000 } else { 6000 };
+    let n_random = if parts & RANDOM == 0 { 0 } else if thorough { 60000 } else { 6000 };
     for i in 0..n_random {
         let only_blank = i % 2 == 0;
         let pool: &[&str] = if only_blank { &blank_pieces } else { &all_pieces };
@@ -437,15 +491,15 @@ pub fn cases(o: &mut Outcome, rng: &mut Rng, thorough: bool) {
 
     // (c) real gaps of the fixtures
     k.desc = "fixture";
-    let gaps = fixture_gaps();
+    let gaps = if parts & FIXTURES != 0 { fixture_gaps() } else { vec![] };
     k.o.count_n("missed:fixture-gaps-distinct", gaps.len() as u64);
     let take = if thorough { gaps.len() } else { gaps.len().min(2500) };
     // quick: a seeded window of the (sorted, deduplicated) list; thorough: all of it
-    let start = if thorough || gaps.len() <= take { 0 } else { rng.below(gaps.len()) };
+    let start = if thorough || gaps.len() <= take || gaps.is_empty() { 0 } else { rng.below(gaps.len()) };
     let fx_cfgs = [BASE, Cfg { ed2024: true, ..BASE }, Cfg { hard_tabs: true, lower: 1, upper: 2, ..BASE }];
     let fx_configs: Vec<Config> = fx_cfgs.iter().map(|c| mk_config(*c)).collect();
     for j in 0..take {
-        let (pre, gap) = &gaps[(start + j) % gaps.len()];
+        let (pre, gap) = &gaps[(start + j) % gaps.len().max(1)];
         k.consistent = true;
         let ci = j % fx_cfgs.len();
         // the buffer ends the way the text in front ends (its last line, re-indented by nothing)
@@ -556,7 +610,7 @@ pub fn fixture_gaps() -> Vec<(String, String)> {
         }
         let mut pos = 0usize;
         let mut gap_start: Option<usize> = None;
-        let mut flush = |from: usize, to: usize, set: &mut std::collections::BTreeSet<(String, String)>| {
+        let flush = |from: usize, to: usize, set: &mut std::collections::BTreeSet<(String, String)>| {
             let gap = &src[from..to];
             if !(gap.contains('\n') || gap.contains('/')) || !gap.is_ascii() || gap.len() > 400 {
                 return;
@@ -602,9 +656,32 @@ pub fn fixture_gaps() -> Vec<(String, String)> {
 /// reproduce its own output (`fails` expected, known findings), and the reproduction of the repaired
 /// defect (`fails` must stay false).  Whole programs through the real formatter.
 pub fn probes(o: &mut Outcome) {
-    use crate::pool::{self, Job, Status};
+    probes_idem(o);
+    probes_fixed(o);
+}
+
+fn probe_fmt(src: &str, cfg: &[(&str, &str)]) -> crate::pool::FmtOut {
+    crate::pool::format_here(&crate::pool::Job { src: src.to_string(), cfg: cfg.iter().map(|(k, v)| (k.to_string(), v.to_string())).collect(), file_lines: None })
+}
+
+/// The repaired defect: must stay clean.
+pub fn probes_fixed(o: &mut Outcome) {
+    use crate::pool::Status;
     use serde_json::json;
-    let fmt = |src: &str, cfg: &[(&str, &str)]| pool::format_here(&Job { src: src.to_string(), cfg: cfg.iter().map(|(k, v)| (k.to_string(), v.to_string())).collect(), file_lines: None });
+    let fmt = probe_fmt;
+    {
+        let src = "fn main() {\n    let x = 1; // c\n    /* d */\n    let y = 2;\n}\n";
+        let r = fmt(src, &[("style_edition", "2024")]);
+        let bad = r.status != Status::Ok || r.flags.iter().any(|b| *b) || r.out != src;
+        o.probes.push(json!({"id": "MISSED-FIX-2024", "fails": bad, "what": "style_edition=2024: a line comment that trails a statement, followed on the next line by an indented block comment, came back with a line of blanks between the two ('left behind trailing whitespace', exit 1): repaired by a fix: commit, must stay clean", "detail": {"src": src, "out": r.out, "flags": format!("{:?}", r.flags)}}));
+    }
+}
+
+/// The four shapes on which a second run changes the first one's output (known findings).
+pub fn probes_idem(o: &mut Outcome) {
+    use crate::pool::Status;
+    use serde_json::json;
+    let fmt = probe_fmt;
     let twice = |o: &mut Outcome, id: &str, src: &str, what: &str| {
         let r1 = fmt(src, &[]);
         let r2 = fmt(&r1.out, &[]);
@@ -619,23 +696,27 @@ pub fn probes(o: &mut Outcome) {
         o.probes.push(json!({"id": "MISSED-IDEM-UPPER0", "fails": r1.status == Status::Ok && r2.status == Status::Ok && r1.out != r2.out, "what": "blank_lines_upper_bound = 0: a line comment that trails code, a blank line, a line comment: the blank line goes, and a second run takes the two comments for one group and aligns the second with the first", "detail": {"src": src, "first": r1.out, "second": r2.out}}));
     }
     twice(o, "MISSED-IDEM-UBLANK", "mod m {\u{2028}// c\n    fn a() {}\n}\n", "a Unicode blank other than space and tab (here U+2028; also a lone CR, U+00A0, U+3000) between `{` and a comment: process_comment looks for the last character that is not a space or a tab, finds the blank and takes the comment for one that trails code; the blank is dropped, and a second run moves the comment to its own line");
-    {
-        let src = "fn main() {\n    let x = 1; // c\n    /* d */\n    let y = 2;\n}\n";
-        let r = fmt(src, &[("style_edition", "2024")]);
-        let bad = r.status != Status::Ok || r.flags.iter().any(|b| *b) || r.out != src;
-        o.probes.push(json!({"id": "MISSED-FIX-2024", "fails": bad, "what": "style_edition=2024: a line comment that trails a statement, followed on the next line by an indented block comment, came back with a line of blanks between the two ('left behind trailing whitespace', exit 1): repaired by a fix: commit, must stay clean", "detail": {"src": src, "out": r.out, "flags": format!("{:?}", r.flags)}}));
+}
+
+/// `rfverif missed-c03 | missed-c08 | missed-c16 | missed-c02`: what the property checks get, alone.
+pub fn run_part(which: &str, tier: &str, seed: u64, out: &std::path::Path) -> i32 {
+    let mut o = Outcome::new("MISSED", tier, seed);
+    let mut rng = Rng::new(seed);
+    let th = tier == "thorough";
+    match which {
+        "c03" => cases_c03(&mut o, &mut rng, th),
+        "c08" => cases_c08(&mut o, &mut rng, th),
+        "c16" => cases_c16(&mut o, &mut rng, th),
+        _ => cases_c02(&mut o, &mut rng, th),
     }
+    o.finish(out, jobs())
 }
 
 pub fn run(tier: &str, seed: u64, out: &std::path::Path) -> i32 {
     let mut o = Outcome::new("MISSED", tier, seed);
     let mut rng = Rng::new(seed);
-    let prev = std::panic::take_hook();
-    std::panic::set_hook(Box::new(|_| {}));
     cases(&mut o, &mut rng, tier == "thorough");
-    close_cases(&mut o, &mut rng, tier == "thorough");
     probes(&mut o);
-    std::panic::set_hook(prev);
     o.finish(out, jobs())
 }
 
